@@ -1,4 +1,5 @@
 import Varint.Lemmas.Bitstream
+import Varint.Bridge.Bits
 import Varint.Lemmas.External
 /-
   C11 — bitstream writes are exact and isolated.
@@ -45,6 +46,43 @@ theorem bits_signed_roundtrip (n : Nat) (hn : 2 ≤ n) (s : Int)
   have e : n - 1 + 1 = n := by omega
   rw [e] at this
   exact this
+
+/-! ## the same statements on the machine translation of src/varintBitstream.h (64-bit slots)
+
+`Gen.C.bitstreamSet/Get` are regenerated from the header on every run; `Bridge.Bits` proves them equal to the model
+for every bit offset below 2^64 — also the offsets beyond 2^31 and 2^32 bits that no test reaches. -/
+
+/-- write then read at the same offset and width through the C code returns the value — any prior contents -/
+theorem c_bits_get_set (i o n v : Nat) (ws : List Nat) (hws : ∀ w ∈ ws, w < 2 ^ 64) (hoff : i * 64 + o < 2 ^ 64)
+    (ho : o < 64) (hn1 : 1 ≤ n) (hn : n ≤ 64) (hv : v < 2 ^ n) (hr : InRange 64 i o n ws) :
+    Varint.Gen.C.bitstreamGet
+      (Varint.Bridge.Bits.memOf (Varint.Bridge.applyStores ws
+        (Varint.Gen.C.bitstreamSet (Varint.Bridge.Bits.memOf ws) (i * 64 + o) n v))) (i * 64 + o) n = v := by
+  rw [Varint.Bridge.Bits.bitstreamSet_eq ws hws _ n v hoff hn1 hn hv,
+    Varint.Bridge.Bits.bitstreamGet_eq _ ?_ _ n hoff hn1 hn]
+  · exact bits_get_set 64 i o n v ws (by omega) ho hn1 hn hv hr
+  · intro w hw
+    obtain ⟨j, hj, rfl⟩ := List.getElem_of_mem hw
+    have := bits_words_stay_words 64 i o n v ws (by omega) ho hn1 hn hv (fun j => ?_) j hr
+    · rw [List.getD_eq_getElem?_getD, List.getElem?_eq_getElem hj] at this; simpa using this
+    · exact Varint.Bridge.Bits.memOf_lt ws hws j
+
+/-- the C stores to slot off/64, and to slot off/64 + 1 only when the range crosses into it: nothing else -/
+theorem c_bits_slots_stored (mem : Nat → Nat) (hm : ∀ j, mem j < 2 ^ 64) (off n v : Nat) (hoff : off < 2 ^ 64)
+    (hn1 : 1 ≤ n) (hn : n ≤ 64) (hv : v < 2 ^ n) :
+    (Varint.Gen.C.bitstreamSet mem off n v).map Prod.fst =
+      if n ≤ 64 - off % 64 then [off / 64] else [off / 64, off / 64 + 1] := by
+  rw [Varint.Bridge.Bits.bitstreamSet_stores mem hm off n v hoff hn1 hn hv]
+  split <;> rfl
+
+/-- no bit outside [off, off+n) changes when the C's stores are carried out -/
+theorem c_bits_outside (i o n v : Nat) (ws : List Nat) (hws : ∀ w ∈ ws, w < 2 ^ 64) (hoff : i * 64 + o < 2 ^ 64)
+    (j r : Nat) (ho : o < 64) (hr : r < 64) (hn1 : 1 ≤ n) (hn : n ≤ 64) (hv : v < 2 ^ n) (hrg : InRange 64 i o n ws)
+    (hout : j * 64 + r < i * 64 + o ∨ i * 64 + o + n ≤ j * 64 + r) :
+    bitAt 64 (Varint.Bridge.applyStores ws
+      (Varint.Gen.C.bitstreamSet (Varint.Bridge.Bits.memOf ws) (i * 64 + o) n v)) j r = bitAt 64 ws j r := by
+  rw [Varint.Bridge.Bits.bitstreamSet_eq ws hws _ n v hoff hn1 hn hv]
+  exact bits_outside 64 i o n v ws j r (by omega) ho hr hn1 hn hv hrg hout
 
 /-- non-vacuity: the documented 32-bit example, a write crossing a word boundary -/
 example : InRange 32 0 24 12 [0, 0, 0, 0] := by unfold InRange; decide
